@@ -1,14 +1,22 @@
 import PyaisVerif.Model.Codec
 import PyaisVerif.Model.Armor
 import PyaisVerif.Model.CommState
+import PyaisVerif.Model.Nmea
+import PyaisVerif.Model.TagBlock
+import PyaisVerif.Model.Assemble
+import PyaisVerif.Model.Socket
+import PyaisVerif.Model.Encode
+import PyaisVerif.Model.Filter
+import PyaisVerif.Model.Tracker
+import PyaisVerif.Spec.Layout
 import PyaisVerif.Generated.Tables
 import PyaisVerif.Generated.Consts
 /-!
 # Line-protocol driver: one operation per input line, one canonical output line
 
 Run as a compiled executable (`.lake/build/bin/driver`) or with `lake env lean --run Driver.lean`.
-The Python harness (`harness/impl_driver.py`) answers the same lines with the real pyais and the
-two output streams are diffed (tie 2, DESIGN §4.2).
+The Python harness (`harness/impl.py`) answers the same lines with the real pyais and the two output
+streams are diffed (tie 2, DESIGN §4.2).
 -/
 open Model Py
 
@@ -17,6 +25,7 @@ namespace Drv
 def hexDigit (n : Nat) : Char := if n < 10 then Char.ofNat (48 + n) else Char.ofNat (87 + n)
 def hexOfBytes (bs : List Nat) : String :=
   String.ofList (bs.flatMap fun b => [hexDigit (b / 16 % 16), hexDigit (b % 16)])
+def hexOrDash (bs : List Nat) : String := if bs.isEmpty then "-" else hexOfBytes bs
 
 def hexVal? (c : Char) : Option Nat := Py.hexVal c.toNat
 def bytesOfHex (s : String) : List Nat :=
@@ -36,6 +45,29 @@ def showVal : Val → String
   | .bytes b => s!"y:{hexOfBytes b}"
   | .enum c v => s!"e:{c}:{v}"
 
+def parseInt (s : String) : Int :=
+  match s.toInt? with
+  | some i => i
+  | none => 0
+
+def parseVal (s : String) : Val :=
+  if s = "N" then .none else
+  match s.splitOn ":" with
+  | ["i", n] => .int (parseInt n)
+  | ["b", n] => .bool (n = "1")
+  | ["f", n] => .flt (parseInt n)
+  | ["s", h] => .str (bytesOfHex h)
+  | ["y", h] => .bytes (bytesOfHex h)
+  | ["e", c, n] => .enum c (parseInt n)
+  | _ => .none
+
+def parseKw (s : String) : List (String × Val) :=
+  if s = "-" then [] else
+  (s.splitOn ";").filterMap fun kv =>
+    match kv.splitOn "=" with
+    | [k, v] => some (k, parseVal v)
+    | _ => none
+
 def showMsg (m : Msg) : String :=
   m.cls ++ "|" ++ ";".intercalate (m.fields.map fun (k, v) => k ++ "=" ++ showVal v)
 
@@ -52,6 +84,10 @@ def showOptNat : Option Nat → String
   | some n => toString n
   | none => "N"
 
+def showOptInt : Option Int → String
+  | some n => toString n
+  | none => "N"
+
 def showCS (c : CommState) : String :=
   ",".intercalate [
     "rs=" ++ showOptNat c.received_stations, "sn=" ++ showOptNat c.slot_number,
@@ -64,25 +100,246 @@ def showOptCS : Option CommState → String
   | some c => showCS c
   | none => "ERR:ValueError"
 
-def parseInt (s : String) : Int :=
-  match s.toInt? with
-  | some i => i
-  | none => 0
-
 def env := Generated.env
 def cs := Generated.csConsts
+def nk : NmeaConsts := { maxFragCnt := Generated.MAX_FRAG_CNT, maxPayloadLen := Generated.MAX_PAYLOAD_LEN }
+def akStream : AsmConsts := { nmea := nk, bufSize := Generated.STREAM_BUF_SIZE, tagCodes := Generated.TAG_FIELD_CODES }
+def akQueue : AsmConsts := { nmea := nk, bufSize := Generated.QUEUE_BUF_SIZE, tagCodes := Generated.TAG_FIELD_CODES }
+
+def showGH (g : GH) : String :=
+  s!"{hexOfBytes g.raw}/{",".intercalate (g.ts.map toString)}/{hexOrDash g.country}/{hexOrDash g.region}/{hexOrDash g.pss}/{g.online}"
+
+def showOptGH : Option GH → String
+  | some g => showGH g
+  | none => "N"
+
+def showOptBytes : Option Bytes → String
+  | some b => hexOrDash b
+  | none => "N"
+
+/-- everything observable about a parsed sentence -/
+def showSentence (s : Sentence) : String :=
+  " ".intercalate [
+    "raw=" ++ hexOrDash s.raw, "ais=" ++ (if s.isAIS then "1" else "0"),
+    "delim=" ++ hexOrDash s.delimiter, "talker=" ++ hexOrDash s.talker, "typ=" ++ hexOrDash s.typ,
+    "chk=" ++ toString s.checksum, "fill=" ++ toString s.fillBits,
+    "valid=" ++ (if s.isValid then "1" else "0"),
+    "df=" ++ ",".intercalate (s.dataFields.map hexOrDash),
+    "tb=" ++ showOptBytes s.tagBlock, "w=" ++ showOptGH s.wrapper,
+    (if s.isAIS then
+      s!"fc={s.fragCnt} fn={s.fragNum} seq={showOptInt s.seqId} ch={hexOrDash s.channel} pl={hexOrDash s.payload} bits={showBits s.bits} id={s.aisId}"
+     else "gh=" ++ showOptGH s.gh)]
+
+def showDelivered (i : Nat) (s : Sentence) : String := s!"D{i}:[" ++ showSentence s ++ "]"
+
+def showTbqList (i : Nat) (l : List Sentence) : String :=
+  s!"T{i}:[" ++ "|".intercalate (l.map fun s => hexOrDash s.raw) ++ "]"
+
+def showRun (idx : Bool) (r : AsmState × List StepOut) : String :=
+  let outs := r.2.zipIdx.flatMap fun (o, i) =>
+    let j := if idx then i else 0
+    (o.delivered.map (showDelivered j)) ++ (o.tbqOut.map (showTbqList j))
+  let crash := match r.1.crash with
+    | some e => ["CRASH:" ++ e.name]
+    | none => []
+  let all := outs ++ crash
+  if all.isEmpty then "-" else " ; ".intercalate all
+
+def splitLFKeep (s : Bytes) : List Bytes :=
+  let rec go : Bytes → Bytes → List Bytes
+    | acc, [] => if acc.isEmpty then [] else [acc]
+    | acc, b :: bs => if b = 10 then (acc ++ [b]) :: go [] bs else go (acc ++ [b]) bs
+  go [] s
+
+def sfilter (l : Bytes) : Bool := streamFilter Generated.STREAM_MIN_LEN Generated.SHOULD_PARSE_FIRST l
+
+def showTB (t : TagBlock) : String :=
+  " ".intercalate [
+    "valid=" ++ (if t.isValid then "1" else "0"), s!"actual={t.actual}", s!"expected={t.expected}",
+    "c=" ++ showOptBytes t.receiver_timestamp, "d=" ++ showOptBytes t.destination_station,
+    "n=" ++ showOptBytes t.line_count, "r=" ++ showOptBytes t.relative_time,
+    "s=" ++ showOptBytes t.source_station, "t=" ++ showOptBytes t.text,
+    "g=" ++ (match t.group with
+      | some g => s!"{g.num}-{g.tot}-{g.gid}"
+      | none => "N")]
+
+def trackFieldNames : List String :=
+  Generated.TRACK_FIELDS.filter fun n => n ≠ "mmsi" ∧ n ≠ "last_updated"
+
+def showTrack (t : Track) : String :=
+  s!"{t.mmsi}@{t.lu}(" ++ ",".intercalate ((t.attrs.filter fun p => p.2 ≠ .none).map fun (k, v) => k ++ "=" ++ showVal v) ++ ")"
+
+def showEv : Ev × Int → String
+  | (.created, m) => s!"C{m}"
+  | (.updated, m) => s!"U{m}"
+  | (.deleted, m) => s!"D{m}"
+
+/-- DELETED events of one operation are reported as a sorted set (the code iterates a Python set) -/
+def showEvs (evs : List (Ev × Int)) : String :=
+  let dels := (evs.filter fun e => e.1 = .deleted).map (·.2)
+  let others := evs.filter fun e => e.1 ≠ .deleted
+  let delsSorted := dels.toArray.qsort (· < ·) |>.toList
+  ",".intercalate (others.map showEv ++ delsSorted.map fun m => s!"D{m}")
+
+def showTrkState (s : TrkState) : String := "{" ++ " ".intercalate (s.tracks.map showTrack) ++ "}"
+
+structure TrkRun where
+  st : TrkState
+  now : Int := 0
+  out : List String := []
+
+def trkOp (r : TrkRun) (op : String) : TrkRun :=
+  let emit (st : TrkState) (s : String) : TrkRun := { r with st := st, out := r.out ++ [s ++ " " ++ showTrkState st] }
+  match op.splitOn ":" with
+  | ["t", n] => { r with now := parseInt n }
+  | ["l", n] => { r with st := { r.st with ttl := if n = "N" then none else some (parseInt n) } }
+  | ["c"] => let (st, evs) := cleanup r.st r.now; emit st ("c[" ++ showEvs evs ++ "]")
+  | ["p", m] =>
+    let (st, evs, t) := popTrack r.st (parseInt m)
+    emit st ("p[" ++ showEvs evs ++ "]" ++ (match t with | some t => showTrack t | none => "N"))
+  | ["n", k] => emit r.st ("n[" ++ " ".intercalate ((nLatest r.st (parseInt k)).map fun t => toString t.mmsi) ++ "]")
+  | ["u", line, ts] =>
+    match decodeArgs nk env false [bytesOfHex line] with
+    | .error e => emit r.st ("u" ++ showErr e)
+    | .ok m =>
+      match m.fields.lookup "mmsi" with
+      | some (.int mmsi) =>
+        let ts := if ts = "N" then r.now else parseInt ts
+        let (st, evs, ok) := update r.st mmsi (msgAttrs trackFieldNames m) ts r.now
+        emit st ((if ok then "u+[" else "u-[") ++ showEvs evs ++ "]")
+      | _ => emit r.st "uERR:TypeError"
+  | _ => { r with out := r.out ++ ["BAD-OP"] }
+
+def parseFilt (s : String) : Option Filt :=
+  match s.splitOn ":" with
+  | ["A", "always"] => some (.attr .always)
+  | ["A", "never"] => some (.attr .never)
+  | ["A", "has", n] => some (.attr (.hasField n))
+  | ["A", "lt", n, b] => some (.attr (.fieldLt n (parseInt b)))
+  | "A" :: "eq" :: n :: rest => some (.attr (.fieldEq n (parseVal (":".intercalate rest))))
+  | ["N", attrs] => some (.noneF (if attrs = "-" then [] else attrs.splitOn ","))
+  | ["T", ts] => some (.mtype (if ts = "-" then [] else (ts.splitOn ",").map parseInt))
+  | ["D", la, lo, km] => some (.dist (parseInt la) (parseInt lo) (parseInt km))
+  | ["G", a, b, c, d] => some (.grid (parseInt a) (parseInt b) (parseInt c) (parseInt d))
+  | _ => none
+
+/-- distance table given on the command line: `rla,rlo,la,lo,d;…` -/
+def parseDist (s : String) : Int × Int → Int × Int → Int :=
+  let rows : List ((Int × Int) × (Int × Int) × Int) :=
+    if s = "-" then [] else
+    (s.splitOn ";").filterMap fun r =>
+      match r.splitOn "," with
+      | [a, b, c, d, e] => some ((parseInt a, parseInt b), (parseInt c, parseInt d), parseInt e)
+      | _ => none
+  fun ref p => match rows.find? (fun r => r.1 = ref ∧ r.2.1 = p) with
+    | some r => r.2.2
+    | none => 0
+
+def membersOf (cls : String) : List Int :=
+  match Generated.enumMembers.lookup cls with
+  | some l => l
+  | none => []
+
+/-- C01 oracle: does the decoded message `m` (as printed by the implementation) agree with the
+published layout that the payload's own bits select? -/
+def specCheck (bits : Bits) (m : String) : String :=
+  match Spec.select bits with
+  | .error e => "REJECT:" ++ e.name
+  | .ok cls =>
+    match Spec.layouts.lookup cls, m.splitOn "|" with
+    | some L, [cls', kv] =>
+      if cls ≠ cls' then s!"FAIL class expected={cls}"
+      else
+        let fields := parseKw kv
+        if fields.map (·.1) ≠ L.map (·.name) then "FAIL field-names"
+        else
+          let bad := ((Spec.offsets 0 L).zip fields).filter fun (lo, nv) =>
+            !(Spec.check membersOf lo.1.kind ((bits.drop lo.2).take lo.1.width) nv.2)
+          if bad.isEmpty then "OK" else "FAIL " ++ ",".intercalate (bad.map fun (lo, _) => lo.1.name)
+    | _, _ => "FAIL unparsable"
 
 def step (line : String) : String :=
   match (line.trimAscii.toString.splitOn " ").filter (· ≠ "") with
+  | ["spec.check", b, m] => specCheck (parseBits b) m
   | ["frombits", b] => showExcept showMsg (decodeBits env (parseBits b))
   | ["frombits_cls", c, b] => showExcept showMsg (fromBitarray env c (parseBits b))
   | ["dearmor", p, f] => showExcept showBits (dearmor (bytesOfHex p) (parseInt f))
-  | ["armor", b] => let (cs, f) := encodeAscii6 (parseBits b); s!"{hexOfBytes cs} {f}"
+  | ["armor", b] => let (cs, f) := encodeAscii6 (parseBits b); s!"{hexOrDash cs} {f}"
   | ["sotdma", r] => showOptCS (sotdma cs r.toNat!)
   | ["itdma", r] => showCS (itdma cs r.toNat!)
   | ["commstate", t, r] =>
       let t := t.toNat!; let r := r.toNat!
       s!"{isSotdma cs t r} {isItdma cs t r} {commStateRaw cs r} " ++ showOptCS (getCommState cs t r)
+  | ["parse", l] => showExcept showSentence (produce nk (bytesOfHex l))
+  | "decode" :: strict :: ls => showExcept showMsg (decodeArgs nk env (strict = "1") (ls.map bytesOfHex))
+  | "assemble" :: strict :: ls => showExcept showSentence (oneShotAssemble nk (strict = "1") (ls.map bytesOfHex))
+  | "stream" :: fe :: tbq :: ls =>
+      let lines := ls.map bytesOfHex
+      let st := initState (tbq = "1")
+      if fe = "iter" then showRun true (runLoop (streamStep akStream) st lines)
+      else if fe = "bytestream" then
+        -- index = position in the unfiltered input
+        let r := runLoop (fun s l => if sfilter l then streamStep akStream s l else (s, {})) st lines
+        showRun true r
+      else if fe = "queue" then showRun true (runLoop (queueStep akQueue) st lines)
+      else "BAD-OP"
+  | ["file", tbq, content] =>
+      let lines := (splitLFKeep (bytesOfHex content)).filter sfilter
+      showRun false (runLoop (streamStep akStream) (initState (tbq = "1")) lines)
+  | "socket" :: tbq :: chunks =>
+      let lines := (sockRead [] (chunks.map bytesOfHex)).filter sfilter
+      showRun false (runLoop (streamStep akStream) (initState (tbq = "1")) lines)
+  | "sock" :: chunks => "[" ++ ",".intercalate ((sockRead [] (chunks.map bytesOfHex)).map hexOrDash) ++ "]"
+  | "tbq" :: ls =>
+      -- sentences parsed with the factory and put into a TagBlockQueue directly
+      let rec go (st : TbqState Sentence) (i : Nat) : List String → List String
+        | [] => []
+        | l :: rest =>
+          match produce nk (bytesOfHex l) with
+          | .error e => ("T" ++ toString i ++ ":" ++ showErr e) :: go st (i+1) rest
+          | .ok s =>
+            match tbqPut Generated.TAG_FIELD_CODES st s s.tagBlock with
+            | .error e => ("T" ++ toString i ++ ":" ++ showErr e) :: go st (i+1) rest
+            | .ok (st', out) => out.map (showTbqList i) ++ go st' (i+1) rest
+      let o := go TbqState.empty 0 ls
+      if o.isEmpty then "-" else " ; ".intercalate o
+  | ["tagblock.parse", h] => showExcept showTB (tbInit Generated.TAG_FIELD_CODES (bytesOfHex h))
+  | ["tagblock.create", kv] =>
+      let fields := if kv = "-" then [] else (kv.splitOn ";").filterMap fun p =>
+        match p.splitOn "=" with
+        | [k, v] => some (k, if v = "N" then none else some (bytesOfHex v))
+        | _ => none
+      showExcept hexOrDash (tbCreate Generated.TAG_FIELD_CODES fields)
+  | ["create", c, kw] => showExcept showMsg (create env c (parseKw kw))
+  | ["tobits", c, kw] => showExcept showBits (do let m ← create env c (parseKw kw); msgToBits env m)
+  | ["encode_dict", t, c, kw] =>
+      showExcept (fun l => ",".intercalate (l.map hexOrDash))
+        (encodeDict env Generated.ENCODE_MAX_LEN (parseKw kw) (bytesOfHex t) (bytesOfHex c))
+  | ["encode_msg", cl, t, c, kw] =>
+      showExcept (fun l => ",".intercalate (l.map hexOrDash))
+        (do let m ← create env cl (parseKw kw)
+            encodeMsg env Generated.ENCODE_MAX_LEN m (bytesOfHex t) (bytesOfHex c))
+  | ["nmea", p, t, c, f] =>
+      showExcept (fun l => if l.isEmpty then "-" else ",".intercalate (l.map hexOrDash))
+        (aisToNmea Generated.ENCODE_MAX_LEN (bytesOfHex p) (bytesOfHex t) (bytesOfHex c) f.toNat!)
+  | "tracker" :: ordered :: ttl :: ops =>
+      let st : TrkState := { ordered := ordered = "1", ttl := if ttl = "N" then none else some (parseInt ttl) }
+      let r := ops.foldl trkOp { st := st }
+      " ; ".intercalate r.out
+  | "chain" :: fs :: dist :: ms =>
+      match (fs.splitOn "+").mapM parseFilt with
+      | none => "BAD-OP"
+      | some filts =>
+        let decoded := ms.zipIdx.filterMap fun (l, i) =>
+          match decodeArgs nk env false [bytesOfHex l] with
+          | .ok m => some (i, m)
+          | .error _ => none
+        -- tag each message with its index through a marker field
+        let tagged := decoded.map fun (i, m) => { m with fields := m.fields ++ [("__idx", .int i)] }
+        let out := chain (parseDist dist) filts tagged
+        "[" ++ ",".intercalate (out.map fun m => match m.fields.lookup "__idx" with
+          | some (.int i) => toString i
+          | _ => "?") ++ "]"
   | _ => "BAD-OP"
 
 partial def loop (h : IO.FS.Stream) (out : IO.FS.Stream) : IO Unit := do
